@@ -73,75 +73,86 @@ structure PackState where
 
 def paxXattr (k : Str) : Str := k
 
-/-- `tarAppender.addTarFile(path, name)`; `none` = the entry is left out (error logged) -/
-def addTarFileP (o : PackOpts) (st : PackState) (path name : Str) : RProg PackState := do
-  let r ← rsys (.lstat path)
-  match r with
-  | .stat s =>
-    let linkR ← (if s.kind == .sym then rsys (.readlink path) else pure (.str []))
-    match linkR with
-    | .str link =>
-      let capR ← rsys (.getxattr path capKey)
-      let xattrs : List (Str × List UInt8) := match capR with
-        | .data c => [(capKey, capForHeader c)]
-        | _ => []
-      let hdr0 : Entry := { typ := typOfKind s.kind, name := canonicalTarName name (s.kind == .dir), linkname := link,
-                            mode := s.perm, uid := s.uid, gid := s.gid, mtime := (s.mtime.getD implicitT),
-                            size := if s.kind == .reg then s.size else 0, xattrs := xattrs,
-                            devmajor := if s.kind == .chr || s.kind == .blk then s.rdev.1 else 0,
-                            devminor := if s.kind == .chr || s.kind == .blk then s.rdev.2 else 0 }
-      -- hard links
-      let (hdr1, st1) :=
-        if s.kind != .dir && s.nlink > 1 then
-          match st.seenInodes.find? (fun x => x.1 = s.ino) with
-          | some (_, old) => ({ hdr0 with typ := .link, linkname := old, size := 0 }, st)
-          | none => (hdr0, { st with seenInodes := (s.ino, name) :: st.seenInodes })
-        else (hdr0, st)
-      -- ownership: whiteouts keep their on-disk owner
-      let isOverlayWhiteout := s.kind == .chr && hdr1.devmajor == 0 && hdr1.devminor == 0
-      let opt : Opts := { uidMaps := o.uidMaps, gidMaps := o.gidMaps }
-      let owner : Option (Nat × Nat) :=
-        if !isOverlayWhiteout && !hasPrefix (base hdr1.name) whPrefix && !idMapEmpty opt then
-          toContainerPair opt s.uid s.gid
-        else some (hdr1.uid, hdr1.gid)
-      match owner with
-      | none => pure st1                      -- untranslatable owner: entry left out
-      | some (u, g) =>
-        let (u, g) := o.chownOpts.getD (u, g)
-        let hdr2 : Entry := { hdr1 with uid := u, gid := g }
-        if o.overlay then
-          -- overlayWhiteoutConverter.ConvertWrite
-          let hdr3 : Entry :=
-            if isOverlayWhiteout then
-              let sp := splitLast hdr2.name
-              { hdr2 with name := join sp.1 (whPrefix ++ sp.2), mode := 0o600, typ := .reg, size := 0 }
-            else hdr2
-          if s.kind != .dir then
-            emitP o st1 path hdr3
-          else do
-            let oq ← rsys (.getxattr path o.opaqueXattr)
-            match oq with
-            | .data v =>
-              if v = [121] then
-                let wo : Entry := { typ := .reg, mode := hdr3.mode &&& 0o777, name := join hdr3.name whOpaqueDir,
-                                    size := 0, uid := hdr3.uid, gid := hdr3.gid, mtime := 0 }
-                let hdr4 : Entry := { hdr3 with xattrs := hdr3.xattrs.filter (fun x => x.1 ≠ o.opaqueXattr) }
-                pure { st1 with out := wo :: hdr4 :: st1.out }
-              else emitP o st1 path hdr3
-            | .err .ENODATA => emitP o st1 path hdr3
-            | _ => pure st1                   -- lgetxattr error: entry left out
-        else emitP o st1 path hdr2
-    | _ => pure st
-  | _ => pure st
-where
-  /-- write the header and, for a non-empty regular file, its body -/
-  emitP (_o : PackOpts) (st : PackState) (path : Str) (hdr : Entry) : RProg PackState := do
-    if hdr.typ == .reg && hdr.size > 0 then
-      let d ← rsys (.readFile path)
-      match d with
-      | .data bytes => pure { st with out := { hdr with body := bytes } :: st.out }
-      | _ => pure { st with out := hdr :: st.out }
-    else pure { st with out := hdr :: st.out }
+/-- the header `FileInfoHeader` + `ReadSecurityXattrToTarHeader` build from lstat, readlink and lgetxattr -/
+def buildHeader (name : Str) (s : StatInfo) (link : Str) (capR : Res) : Entry :=
+  let xattrs : List (Str × List UInt8) := match capR with
+    | .data c => [(capKey, capForHeader c)]
+    | _ => []
+  { typ := typOfKind s.kind, name := canonicalTarName name (s.kind == .dir), linkname := link,
+    mode := s.perm, uid := s.uid, gid := s.gid, mtime := (s.mtime.getD implicitT),
+    size := if s.kind == .reg then s.size else 0, xattrs := xattrs,
+    devmajor := if s.kind == .chr || s.kind == .blk then s.rdev.1 else 0,
+    devminor := if s.kind == .chr || s.kind == .blk then s.rdev.2 else 0 }
+
+/-- hard-link bookkeeping (`SeenFiles`): a later name of a seen inode becomes a link entry naming
+    the name under which the inode was first archived -/
+def linkStage (st : PackState) (name : Str) (s : StatInfo) (hdr0 : Entry) : Entry × PackState :=
+  if s.kind != .dir && s.nlink > 1 then
+    match st.seenInodes.find? (fun x => x.1 = s.ino) with
+    | some (_, old) => ({ hdr0 with typ := .link, linkname := old, size := 0 }, st)
+    | none => (hdr0, { st with seenInodes := (s.ino, name) :: st.seenInodes })
+  else (hdr0, st)
+
+def isOverlayWhiteout (s : StatInfo) (hdr : Entry) : Bool := s.kind == .chr && hdr.devmajor == 0 && hdr.devminor == 0
+
+/-- owner recorded in the header: host→container unless the entry is a whiteout; `none` = untranslatable -/
+def ownerOf (o : PackOpts) (s : StatInfo) (hdr1 : Entry) : Option (Nat × Nat) :=
+  let opt : Opts := { uidMaps := o.uidMaps, gidMaps := o.gidMaps }
+  let own : Option (Nat × Nat) :=
+    if !isOverlayWhiteout s hdr1 && !hasPrefix (base hdr1.name) whPrefix && !idMapEmpty opt then
+      toContainerPair opt s.uid s.gid
+    else some (hdr1.uid, hdr1.gid)
+  own.map (fun ug => o.chownOpts.getD ug)
+
+/-- write the header and, for a non-empty regular file, its body -/
+def emitP (st : PackState) (path : Str) (hdr : Entry) : RProg PackState :=
+  if hdr.typ == .reg && hdr.size > 0 then
+    .call (.readFile path) (fun d => match d with
+      | .data bytes => .ret { st with out := { hdr with body := bytes } :: st.out }
+      | _ => .ret { st with out := hdr :: st.out })
+  else .ret { st with out := hdr :: st.out }
+
+/-- `overlayWhiteoutConverter.ConvertWrite` + the two `WriteHeader`s -/
+def overlayP (o : PackOpts) (st : PackState) (path : Str) (s : StatInfo) (hdr2 : Entry) : RProg PackState :=
+  let hdr3 : Entry :=
+    if isOverlayWhiteout s hdr2 then
+      let sp := splitLast hdr2.name
+      { hdr2 with name := join sp.1 (whPrefix ++ sp.2), mode := 0o600, typ := .reg, size := 0 }
+    else hdr2
+  if s.kind != .dir then emitP st path hdr3
+  else
+    .call (.getxattr path o.opaqueXattr) (fun oq => match oq with
+      | .data v =>
+        if v = [121] then
+          let wo : Entry := { typ := .reg, mode := hdr3.mode &&& 0o777, name := join hdr3.name whOpaqueDir,
+                              size := 0, uid := hdr3.uid, gid := hdr3.gid, mtime := 0 }
+          let hdr4 : Entry := { hdr3 with xattrs := hdr3.xattrs.filter (fun x => x.1 ≠ o.opaqueXattr) }
+          .ret { st with out := wo :: hdr4 :: st.out }
+        else emitP st path hdr3
+      | .err .ENODATA => emitP st path hdr3
+      | _ => .ret st)                   -- lgetxattr error: entry left out
+
+/-- after lstat (+ readlink) (+ lgetxattr): bookkeeping, ownership, conversion, emission -/
+def afterStatP (o : PackOpts) (st : PackState) (path name : Str) (s : StatInfo) (link : Str) (capR : Res) :
+    RProg PackState :=
+  let hdr0 := buildHeader name s link capR
+  let ls := linkStage st name s hdr0
+  match ownerOf o s ls.1 with
+  | none => .ret ls.2                    -- untranslatable owner: entry left out
+  | some (u, g) =>
+    let hdr2 : Entry := { ls.1 with uid := u, gid := g }
+    if o.overlay then overlayP o ls.2 path s hdr2 else emitP ls.2 path hdr2
+
+/-- `tarAppender.addTarFile(path, name)`; an error means the entry is left out (logged) -/
+def addTarFileP (o : PackOpts) (st : PackState) (path name : Str) : RProg PackState :=
+  .call (.lstat path) (fun r => match r with
+    | .stat s =>
+      if s.kind == .sym then
+        .call (.readlink path) (fun lr => match lr with
+          | .str link => .call (.getxattr path capKey) (fun capR => afterStatP o st path name s link capR)
+          | _ => .ret st)
+      else .call (.getxattr path capKey) (fun capR => afterStatP o st path name s [] capR)
+    | _ => .ret st)
 
 /-- `getWalkRoot` -/
 def getWalkRoot (src inc : Str) : Str := trimSuffix src slashStr ++ slashStr ++ inc
@@ -152,53 +163,61 @@ structure WalkSt where
 
 def hasExclusions (o : PackOpts) : Bool := o.pats.any (·.excl)
 
+inductive WalkAct where
+  | skip (ws : WalkSt)                         -- nothing archived for this item
+  | add (ws : WalkSt) (relp name : Str)        -- archive it under `name`, remember `relp` as seen
+
+/-- the decision part of the walk callback of `Tarballer.Do` for one visited item -/
+def walkStep (o : PackOpts) (src inc filePath : Str) (kind : Kind) (depth : Nat) (ws0 : WalkSt) (st : PackState) :
+    WalkAct :=
+  if (match ws0.skipDepth with | some sd => decide (depth > sd) | none => false) then .skip ws0
+  else
+    let ws : WalkSt := { ws0 with skipDepth := none }
+    let isDir := kind == .dir
+    match rel src filePath with
+    | none => .skip ws
+    | some rel0 =>
+      if !o.includeSourceDir && rel0 = dot && isDir then .skip ws
+      else
+        let relp := if o.includeSourceDir && inc = dot && rel0 ≠ dot then dot ++ slashStr ++ rel0 else rel0
+        -- exclusion with the ancestor stack
+        let (skip, ws1) : Bool × WalkSt :=
+          if inc ≠ relp then
+            let stack1 := ws.stack.dropWhile (fun top => !hasPrefix relp (top.1 ++ slashStr))
+            let parentInfo : List Bool := match stack1 with | top :: _ => top.2 | [] => []
+            let (sk, info) := mur o.pats relp parentInfo
+            (sk, { ws with stack := if isDir then (relp, info) :: stack1 else stack1 })
+          else (false, ws)
+        if skip then
+          if !isDir then .skip ws1
+          else if !hasExclusions o then .skip { ws1 with skipDepth := some depth }
+          else if o.pats.any (fun p => p.excl && hasPrefix (p.text ++ slashStr) (relp ++ slashStr)) then .skip ws1
+          else .skip { ws1 with skipDepth := some depth }
+        else if st.seenNames.contains relp then .skip ws1
+        else
+          let name : Str := match o.rebase.find? (fun x => x.1 = inc) with
+            | some (_, r) =>
+              if r = [] then relp
+              else Copy.rebaseLeading relp inc (if r = slashStr then [] else r)
+            | none => relp
+          .add ws1 relp name
+
 /-- the walk callback of `Tarballer.Do` for one include over the pre-order listing -/
 def walkP (o : PackOpts) (src inc : Str) : List (Str × Kind × Nat) → WalkSt → PackState → RProg PackState
-  | [], _, st => pure st
+  | [], _, st => .ret st
   | (filePath, kind, depth) :: rest, ws0, st =>
-    if (match ws0.skipDepth with | some sd => decide (depth > sd) | none => false) then walkP o src inc rest ws0 st
-    else
-      let ws : WalkSt := { ws0 with skipDepth := none }
-      let isDir := kind == .dir
-      match rel src filePath with
-      | none => walkP o src inc rest ws st
-      | some rel0 =>
-        if !o.includeSourceDir && rel0 = dot && isDir then walkP o src inc rest ws st
-        else
-          let relp := if o.includeSourceDir && inc = dot && rel0 ≠ dot then dot ++ slashStr ++ rel0 else rel0
-          -- exclusion with the ancestor stack
-          let (skip, ws1) : Bool × WalkSt :=
-            if inc ≠ relp then
-              let stack1 := ws.stack.dropWhile (fun top => !hasPrefix relp (top.1 ++ slashStr))
-              let parentInfo : List Bool := match stack1 with | top :: _ => top.2 | [] => []
-              let (sk, info) := mur o.pats relp parentInfo
-              (sk, { ws with stack := if isDir then (relp, info) :: stack1 else stack1 })
-            else (false, ws)
-          if skip then
-            if !isDir then walkP o src inc rest ws1 st
-            else if !hasExclusions o then walkP o src inc rest { ws1 with skipDepth := some depth } st
-            else if o.pats.any (fun p => p.excl && hasPrefix (p.text ++ slashStr) (relp ++ slashStr)) then
-              walkP o src inc rest ws1 st
-            else walkP o src inc rest { ws1 with skipDepth := some depth } st
-          else if st.seenNames.contains relp then walkP o src inc rest ws1 st
-          else
-            let st1 := { st with seenNames := relp :: st.seenNames }
-            let name : Str := match o.rebase.find? (fun x => x.1 = inc) with
-              | some (_, r) =>
-                if r = [] then relp
-                else Copy.rebaseLeading relp inc (if r = slashStr then [] else r)
-              | none => relp
-            .bind (addTarFileP o st1 filePath name) (fun st2 => walkP o src inc rest ws1 st2)
+    match walkStep o src inc filePath kind depth ws0 st with
+    | .skip ws => walkP o src inc rest ws st
+    | .add ws relp name =>
+      (addTarFileP o { st with seenNames := relp :: st.seenNames } filePath name).bind
+        (fun st2 => walkP o src inc rest ws st2)
 
 def includesP (o : PackOpts) (src : Str) : List Str → PackState → RProg PackState
-  | [], st => pure st
-  | inc :: incs, st => do
-    let t ← rsys (.listTree (getWalkRoot src inc))
-    match t with
-    | .tree items =>
-      let st1 ← walkP o src inc items {} st
-      includesP o src incs st1
-    | _ => includesP o src incs st
+  | [], st => .ret st
+  | inc :: incs, st =>
+    .call (.listTree (getWalkRoot src inc)) (fun t => match t with
+      | .tree items => (walkP o src inc items {} st).bind (fun st1 => includesP o src incs st1)
+      | _ => includesP o src incs st)
 
 /-- `SplitPathDirEntry` -/
 def splitPathDirEntry (path : Str) : Str × Str :=
@@ -206,19 +225,17 @@ def splitPathDirEntry (path : Str) : Str × Str :=
   let c' := if base path = dot then c ++ slashStr ++ dot else c
   (dir c', base c')
 
+/-- source directory and include list after `Tarballer.Do`'s adjustments -/
+def srcAndIncludes (src : Str) (o : PackOpts) (s : StatInfo) : Str × List Str :=
+  if s.kind != .dir then ((splitPathDirEntry src).1, [(splitPathDirEntry src).2])
+  else (src, if o.includes.isEmpty then [dot] else o.includes)
+
 /-- `Tarballer.Do` (after `NewTarballer`): the list of entries written to the stream -/
-def tarR (src : Str) (o : PackOpts) : RProg (List Entry) := do
-  let r ← rsys (.lstat src)
-  match r with
-  | .stat s =>
-    let (src1, incs) : Str × List Str :=
-      if s.kind != .dir then
-        let sp := splitPathDirEntry src
-        (sp.1, [sp.2])
-      else (src, if o.includes.isEmpty then [dot] else o.includes)
-    let st ← includesP o src1 incs {}
-    pure st.out.reverse
-  | _ => pure []
+def tarR (src : Str) (o : PackOpts) : RProg (List Entry) :=
+  .call (.lstat src) (fun r => match r with
+    | .stat s =>
+      (includesP o (srcAndIncludes src o s).1 (srcAndIncludes src o s).2 {}).bind (fun st => .ret st.out.reverse)
+    | _ => .ret [])
 
 /-- `Tarballer.Do` as a general program -/
 def tarP (src : Str) (o : PackOpts) : Prog (List Entry) := (tarR src o).toProg
